@@ -1,5 +1,6 @@
 from __future__ import annotations
 
+import ast
 import os
 import platform
 import re
@@ -15,8 +16,10 @@ from typing import Any
 
 from rich.console import Console
 
+from inline_snapshot._code_repr import used_hasrepr
 from inline_snapshot._exceptions import UsageError
 from inline_snapshot._external import DiscStorage
+from inline_snapshot._find_external import ensure_import
 from inline_snapshot._problems import report_problems
 
 from .._change import apply_all
@@ -182,6 +185,14 @@ class Example:
                     ],
                     recorder,
                 )
+
+                # add the import which the generated code needs (like the pytest plugin)
+                for test_file in list(recorder.files()):
+                    if used_hasrepr(ast.parse(test_file.new_code())):
+                        ensure_import(
+                            test_file.filename, {"inline_snapshot": ["HasRepr"]}, recorder
+                        )
+
                 recorder.fix_all()
 
                 report_output = StringIO()
